@@ -145,10 +145,15 @@ def gen_case(rng, cid, ntypes=None, adversarial=False, ninj=1, nfiles=1, force_a
         ', '.join(app_params), ('(%s, error)' % app_t) if app_fall else app_t, zero_expr(app_t), ', nil' if app_fall else ''))
     pkglevel = ''
     if adversarial:
-        cands = ['eg', 'ctx', 'zero', 'ch', 'err', 'errgroup0', 'app']
-        picked = rng.sample(cands, rng.randint(0, 2))
+        cands = ['eg', 'ctx', 'zero', 'ch', 'err', 'errgroup0', 'app', 'app']
+        picked = list(dict.fromkeys(rng.sample(cands, rng.randint(0, 2))))
         pkglevel = ''.join('var %s = %d\n' % (n, i) for i, n in enumerate(picked))
         c.meta['pkglevel'] = picked
+        if picked and rng.random() < 0.5:
+            # the declarations live in a sibling file written by another generator
+            c.files['zz_gen.go'] = '// Code generated by stringer -type=Kind; DO NOT EDIT.\n\npackage main\n\n' + pkglevel
+            c.meta['pkglevel_in_generated_file'] = True
+            pkglevel = ''
 
     def imp_block(extra=None):
         im = dict(imports)
